@@ -102,10 +102,12 @@ def field_id(name: str) -> int:
 class T:
     """Static type hint.  kind in bool,int,real,str,none,val,obj,list,dict,tuple ; `cls` for obj; `elem` for list/dict values;
     `opt` = may be None (then the storage sort is Val)."""
-    __slots__ = ('kind', 'cls', 'elem', 'key', 'opt', 'elts')
+    __slots__ = ('kind', 'cls', 'elem', 'key', 'opt', 'elts', 'rec', 'req')
 
-    def __init__(self, kind, cls=None, elem=None, key=None, opt=False, elts=None):
+    def __init__(self, kind, cls=None, elem=None, key=None, opt=False, elts=None, rec=None, req=None):
         self.kind, self.cls, self.elem, self.key, self.opt, self.elts = kind, cls, elem, key, opt, elts
+        self.rec = rec          # for dicts used as records (JSON objects): constant key -> T of the value
+        self.req = req          # keys of `rec` that are always present
 
     def __repr__(self):
         s = self.kind + (':' + self.cls if self.cls else '')
@@ -126,8 +128,10 @@ T.bool = T('bool'); T.int = T('int'); T.real = T('real'); T.str = T('str'); T.va
 
 def Obj(cls, opt=False): return T('obj', cls=cls, opt=opt)
 def List(elem=None, opt=False): return T('list', cls='list', elem=elem, opt=opt)
-def Dict(key=None, elem=None, opt=False): return T('dict', cls='dict', key=key, elem=elem, opt=opt)
-def Opt(t: T): return T(t.kind, t.cls, t.elem, t.key, True, t.elts)
+def Dict(key=None, elem=None, opt=False, rec=None, req=None):
+    return T('dict', cls='dict', key=key, elem=elem, opt=opt, rec=rec, req=(set(rec) if rec is not None and req is None else req))
+def Opt(t: T): return T(t.kind, t.cls, t.elem, t.key, True, t.elts, t.rec, t.req)
+def NonOpt(t: T): return T(t.kind, t.cls, t.elem, t.key, False, t.elts, t.rec, t.req)
 
 
 # --- symbolic values -------------------------------------------------------------------------------
